@@ -485,11 +485,11 @@ def script_for(path, xid, sc, info, creds, rnd, msgsz):
         elif a == "asend":
             lines.append("a %d" % rnd.choice([1, 1, 2, 3, 5, 90]))
         elif a == "close":
-            lines.append("z")
+            lines.append("zf" if rnd.random() < 0.2 else "z")      # zf: the socket is closed by a forked child that owns it
             closed = True
     lines.append("f")
     if not closed:
-        lines.append("z")
+        lines.append("zf" if rnd.random() < 0.2 else "z")
         # what the clients see after the close
         for s in sorted(alive - libs)[:2]:
             lines.append("r %d" % s)
